@@ -40,6 +40,26 @@ Example C15_nonvacuous :
   mod_key_of 6 5 = false /\ mod_key_of 6 102 = true.
 Proof. repeat split. Qed.
 
+(* ---- app stage: the executable judgement of coq/Check is sound for the model on every scenario of the profile, and transfers
+   to every trace that agrees with the model's run ---- *)
+From BEI Require Check.C15c Check.C05c Proofs.JudgeC15P.
+Theorem C15_app_judgement_sound : forall sc, JudgeC15P.profile_C15b sc = true -> C15c.ok_ext (sc, App.trace (App.run sc)) = 0%Z.
+Proof. exact JudgeC15P.C15_app_judgement_sound. Qed.
+
+Theorem C15_app_judgement_transfer : forall sc t, JudgeC15P.profile_C15b sc = true -> JudgeC15P.transfer_side sc = true -> App.agree_full (sc, t) = true -> C15c.ok_ext (sc, t) = 0%Z.
+Proof. exact JudgeC15P.C15_app_judgement_transfer. Qed.
+
+Theorem C15_app_judgement_sound_consuming : forall sc, JudgeC15P.profile_C08b sc = true -> C15c.consuming_profile sc = true -> C05c.ok5 (sc, App.trace (App.run sc)) = 0%Z -> C15c.ok_ext (sc, App.trace (App.run sc)) = 0%Z.
+Proof. exact JudgeC15P.C15_app_judgement_sound_consuming. Qed.
+
+
+(* ---- app stage: the executable judgement of coq/Check is sound for the model on every scenario of the profile, and transfers
+   to every trace that agrees with the model's run ---- *)
+From BEI Require Proofs.JudgeProfiles.
+Theorem C15_app_judgement_sound_all : forall sc, JudgeProfiles.prof_C15 sc = true -> C15c.ok_ext (sc, App.trace (App.run sc)) = 0%Z.
+Proof. exact JudgeProfiles.C15_sound_all. Qed.
+
+
 Print Assumptions C15_read.
 Print Assumptions C15_other_keys_irrelevant.
 Print Assumptions C15_other_keys_irrelevant_mouse.
@@ -62,3 +82,7 @@ Proof.
   destruct (N k e Hk) as [Hc Hr]. exists (concat (firstn k hs)). split; [exact Hc | exact Hr].
 Qed.
 Print Assumptions C15_every_read_of_a_frame.
+Print Assumptions C15_app_judgement_sound.
+Print Assumptions C15_app_judgement_transfer.
+Print Assumptions C15_app_judgement_sound_consuming.
+Print Assumptions C15_app_judgement_sound_all.
